@@ -201,3 +201,93 @@ Example C15_gated_fragment_retried :
       OInfoUnsol false 3; OTxConfirm 1024 true 3];
      [OInfoUnsol true 3; OTxConfirm 1024 true 3]].
 Proof. vm_compute; reflexivity. Qed.
+
+(* ---- agreement of the hand-written models with the tables regenerated from the source on every run
+   (tools/gen/gen_master_tables.py -> gen/MasterTables.v; lemmas, interpreters and observers in
+   Master/TablesAgree.v, module MTab).  `.._is_table`: the model's function IS the interpreter run over the
+   generated table; `.._observed`: the order the model serves things in, observed on enumerated states. *)
+From Coq Require Import String List.
+From Dnp3V Require Import Base.Bytes Master.Backoff Master.Assoc Master.Sched Master.MParse Master.Command Master.MTask
+  Master.TimeSync gen.MasterTables Master.TablesAgree.
+Import MTab.
+Local Open Scope string_scope.
+Local Open Scope list_scope.
+Local Open Scope N_scope.
+
+Theorem C15_tables_nonread_validation_is_table : forall cfg st k seq d started src h objs v items,
+  validate_dispatch gm_validate_non_read_response (mt_check cfg seq true src h)
+    (MT.handle_unsol cfg st src h objs v items) (st, [])
+    (fun e => option_map (MT.fail_running cfg st) (mt_err h e))
+    (mt_nonread_accept cfg st k seq started h objs v)
+  = Some (MT.on_nonread_rx cfg st k seq d started src h objs v items).
+Proof. exact MTab.mt_nonread_validation_is_table. Qed.
+Print Assumptions C15_tables_nonread_validation_is_table.
+
+Theorem C15_tables_read_validation_is_table : forall cfg st k seq first d started src h objs v items,
+  validate_dispatch gm_process_read_response (mt_check cfg seq first src h)
+    (MT.handle_unsol cfg st src h objs v items) (st, [])
+    (fun e => option_map (MT.fail_running cfg st) (mt_err h e))
+    (mt_read_accept cfg st k seq started h v items)
+  = Some (MT.on_read_rx cfg st k seq first d started src h objs v items).
+Proof. exact MTab.mt_read_validation_is_table. Qed.
+Print Assumptions C15_tables_read_validation_is_table.
+
+(* Iin::has_bad_request_error *)
+Theorem C15_tables_iin2_bad_request_bits :
+  forallb (fun i2 => Bool.eqb (MP.iin2_bad i2) (existsb (N.testbit i2) gm_iin2_bad_request_bits)
+                     && Bool.eqb (ms_iin_bad_request (probe_frag 0 i2)) (existsb (N.testbit i2) gm_iin2_bad_request_bits))
+          (nrange 256) = true.
+Proof. exact MTab.iin2_bad_request_bits_agree. Qed.
+Print Assumptions C15_tables_iin2_bad_request_bits.
+
+Theorem C15_tables_read_function_code : mt_read_fc = assoc_str "Read" gm_task_function.
+Proof. exact MTab.mt_read_function_code_agrees. Qed.
+Print Assumptions C15_tables_read_function_code.
+
+Theorem C15_tables_next_task_is_table : forall cfg st,
+  MT.s_assoc st = true -> MT.s_queue st = [] ->
+  mt_dispatch gm_auto_order cfg st = Some (MT.next_task cfg st).
+Proof. exact MTab.mt_next_task_is_table. Qed.
+Print Assumptions C15_tables_next_task_is_table.
+
+(* the order observed in the task model = the generated order without the two tasks it does not have *)
+Theorem C15_tables_auto_order_observed :
+  map mt_auto_name (mt_observe_order 4 [MtClear; MtDisable; MtIntegrity; MtEnable])
+  = filter (fun n => negb (str_in n ["time_sync"; "event_scan"])) generated_auto_order.
+Proof. exact MTab.mt_auto_order_observed. Qed.
+Print Assumptions C15_tables_auto_order_observed.
+
+Theorem C15_tables_reset : forall st e, mt_run_actions gm_association_reset st = Some (fst (MT.reset_assoc st e)).
+Proof. exact MTab.mt_reset_agrees. Qed.
+Print Assumptions C15_tables_reset.
+
+(* process_iin of the task model = `if DEVICE_RESTART { on_restart_iin_observed() }` with the generated
+   handler (the only IIN bit with an effect in the configurations it describes) *)
+Theorem C15_tables_process_iin : forall st i1,
+  (match handler_lookup "on_restart_iin_observed" gm_handlers with
+   | Some (GmWhenSlotIdle n, t, _) =>
+       match mt_slot n st with
+       | Some a => if MP.iin1_restart i1 && mt_is_idle a then mt_run_actions t st else Some st
+       | None => None
+       end
+   | _ => None
+   end) = Some (MT.process_iin st i1) /\
+  existsb (fun r => match r with (1, 7, h) => String.eqb h "on_restart_iin_observed" | _ => false end)
+          gm_process_iin_triggers = true.
+Proof. exact MTab.mt_process_iin_agrees. Qed.
+Print Assumptions C15_tables_process_iin.
+
+(* the task model of C15/C16 (milliseconds in N, no Duration overflow) *)
+Theorem C15_tables_backoff : forall cfg now last nx,
+  MT.failure cfg now (MT.AFailed last nx)
+  = MT.AFailed (N.min (Z.to_N gm_backoff_factor * last) (MT.c_retry_max cfg))
+               (now + N.max (N.min (Z.to_N gm_backoff_factor * last) (MT.c_retry_max cfg)) (Z.to_N gm_min_retry_delay_ms)) /\
+  MT.failure cfg now MT.AIdle = MT.AFailed (MT.c_retry_min cfg) (now + N.max (MT.c_retry_min cfg) (Z.to_N gm_min_retry_delay_ms)).
+Proof. exact MTab.mt_backoff_agrees. Qed.
+Print Assumptions C15_tables_backoff.
+
+Example C15_tables_instance :
+  map fst gm_validate_non_read_response = ["unsolicited"; "source"; "sequence"; "fir_and_fin"; "iin2"] /\
+  map fst gm_process_read_response
+  = ["unsolicited"; "source"; "sequence"; "unexpected_fir"; "never_fir"; "non_fin_without_con"; "iin2"].
+Proof. split; reflexivity. Qed.
